@@ -24,8 +24,8 @@ def random_shuffle(ex, e, p, target):
     p.assume(z3.ForAll([u], z3.Implies(z3.And(0 <= u, u < v.len),
              z3.And(0 <= sg[u], sg[u] < v.len, pi[sg[u]] == u, arr[sg[u]] == v.arr[u]))))
     new = VList(v.len, arr, v.kind)
-    if v.kind == 'int' and ex.listsets:
-        from . import listsets
+    from . import listsets
+    if v.kind in listsets.KINDS and ex.listsets:
         for f in listsets.on_permute(v.term(), new.term()): p.assume(f)
     ex.lv_set(e.args[0], new, p, e.lineno)
     return ex.finish_call(VNone(), p, target, e.lineno)
